@@ -696,3 +696,6 @@ sound_assets! {
         ["wav"],
     );
 }
+
+#[cfg(kani)]
+include!(concat!(env!("ASSETS_MANAGER_VERIF"), "/incrate/asset.rs"));
